@@ -11,7 +11,11 @@ pub(crate) struct VkClock;
 pub(crate) static mut NOW_SECS: u64 = 0;
 pub(crate) static mut NOW_NANOS: u32 = 0;
 impl Clock for VkClock {
-    fn now(&self) -> SystemTime { unsafe { UNIX_EPOCH + Duration::new(NOW_SECS, NOW_NANOS) } }
+    fn now(&self) -> SystemTime {
+        // the clock is a user-supplied callback: other threads may run while it executes
+        vs::schedule_point(vs::S_USER);
+        unsafe { UNIX_EPOCH + Duration::new(NOW_SECS, NOW_NANOS) }
+    }
 }
 pub(crate) fn set_now(secs: u64, nanos: u32) { unsafe { NOW_SECS = secs; NOW_NANOS = nanos; } }
 pub(crate) fn clock() -> ClockType { Box::new(VkClock) }
